@@ -547,6 +547,7 @@ package vuego
 //@   modifies contents(ss.Slots)
 //@ func extractSlotContent(node) (r)
 //@   modifies nothing
+//@   ensures C06.extract.fresh: fresh(r) && r != nil
 //@ func extractFrontMatter(content) (fm, rest, err)
 //@   modifies nothing
 //@ spec func parsedFM(fsys Val, f string, t int) map[string]any
@@ -614,19 +615,25 @@ package vuego
 //@   decreases maxEvalDepth + 10 - depth, 0
 //@   holds ctx.stack
 //@   assert C05.frontmatter.own.scope: len(ctx.stack.stack) == old(len(ctx.stack.stack)) + 1 && (vars != nil ==> ctx.stack.stack[len(ctx.stack.stack) - 1] == vars) at "ctx.stack.Set(k, v)"
+//@   assert C06.instance.own: fresh(ctx.SlotScope) && ctx.SlotScope != nil && ctx.SlotScope == own && own.parent == old(ctx.SlotScope) at "call loadFragment"
 //@   assert C05.component.scope: len(ctx.stack.stack) == old(len(ctx.stack.stack)) + 1 at "v.evalTemplate(ctx, compDom, ctx.stack.EnvMap(), depth+1)"
 //@   ensures C05.noleak: BALANCED(ctx)
 //@   loop 0 invariant C05.balance.loop: len(ctx.stack.stack) == old(len(ctx.stack.stack)) + 1 && (forall bi int :: 0 <= bi && bi < old(len(ctx.stack.stack)) ==> ctx.stack.stack[bi] == old(ctx.stack.stack[bi])) && (vars != nil ==> ctx.stack.stack[len(ctx.stack.stack) - 1] == vars)
 //@   loop 1 invariant C05.balance.loop: len(ctx.stack.stack) == old(len(ctx.stack.stack)) + 1 && (forall bi int :: 0 <= bi && bi < old(len(ctx.stack.stack)) ==> ctx.stack.stack[bi] == old(ctx.stack.stack[bi])) && (vars != nil ==> ctx.stack.stack[len(ctx.stack.stack) - 1] == vars)
+//@   loop 0 invariant C06.instance.loop.a: ctx.SlotScope == own
+//@   loop 0 invariant C06.instance.loop.b: own != nil && fresh(own)
+//@   loop 0 invariant C06.instance.loop.c: own.parent == old(ctx.SlotScope)
 
 //@ func (v *Vue) evalSlot(ctx, node, slotScope, depth) (res, err)
 //@   requires C11.depth.slot: depth <= maxEvalDepth
 //@   decreases maxEvalDepth + 10 - depth, 1
 //@   requires nilable.slotScope: true
 //@   holds ctx.stack
-//@   assert C06.supplied.fields: slotContent.Props == old(slotContent.Props) && slotContent.TemplateNode == old(slotContent.TemplateNode) at "v.evaluateChildren(ctx, slotContent.TemplateNode, depth+1)"
+//@   assert C06.supplied.fields: slotContent.Props == old(slotContent.Props) && slotContent.TemplateNode == old(slotContent.TemplateNode) at "v.evaluateChildren(outer, slotContent.TemplateNode, depth+1)"
 //@   assert C06.props.percall: fresh(slotProps) && slotProps != nil at "ctx.stack.Set(scopedVarName, slotProps)"
-//@   assert C06.props.scope: len(ctx.stack.stack) == old(len(ctx.stack.stack)) + 1 && fresh(slotProps) at "v.evaluateChildren(ctx, slotContent.TemplateNode, depth+1)"
+//@   assert C06.supplier.scope: outer.SlotScope == slotScope.parent && outer.stack == ctx.stack at "v.evaluateChildren(outer, slotContent.TemplateNode, depth+1)"
+//@   assert C06.supplier.scope.plain: outer.SlotScope == slotScope.parent && outer.stack == ctx.stack at "v.evaluate(outer, slotContent.Nodes, depth+1)"
+//@   assert C06.props.scope: len(ctx.stack.stack) == old(len(ctx.stack.stack)) + 1 && fresh(slotProps) at "v.evaluateChildren(outer, slotContent.TemplateNode, depth+1)"
 //@   ensures C06.balance: BALANCED(ctx)
 //@   loop 2 invariant C06.balance.loop: len(ctx.stack.stack) == old(len(ctx.stack.stack)) + 1 && (forall bi int :: 0 <= bi && bi < old(len(ctx.stack.stack)) ==> ctx.stack.stack[bi] == old(ctx.stack.stack[bi]))
 
